@@ -378,7 +378,11 @@ func ParseSPSNALUnit(data []byte) (*SPS, error) {
 		sps.Log2DiffMaxMinPcmLumaCodingBlockSize = uint16(r.ReadExpGolomb())
 		sps.PcmLoopFilterDisabledFlag = r.ReadFlag()
 	}
-	sps.NumShortTermRefPicSets = byte(r.ReadExpGolomb())
+	numShortTermRefPicSets := r.ReadExpGolomb()
+	if numShortTermRefPicSets > 64 { // range 0..64 (7.4.3.2.1); also keeps the uint8 delta POC counts from wrapping
+		return nil, fmt.Errorf("invalid num_short_term_ref_pic_sets: %d", numShortTermRefPicSets)
+	}
+	sps.NumShortTermRefPicSets = byte(numShortTermRefPicSets)
 	if sps.NumShortTermRefPicSets > 0 {
 		sps.ShortTermRefPicSets = make([]ShortTermRPS, sps.NumShortTermRefPicSets)
 		for idx := byte(0); idx < sps.NumShortTermRefPicSets; idx++ {
@@ -608,7 +612,12 @@ func parseHrdParameters(r *bits.EBSPReader,
 
 		if !hp.SubLayerHrd[i].LowDelayHrdFlag {
 			// value shall be in the range of 0 to 31, inclusive
-			hp.SubLayerHrd[i].CpbCntMinus1 = uint8(r.ReadExpGolomb())
+			cpbCntMinus1 := r.ReadExpGolomb()
+			if cpbCntMinus1 > 31 { // the value sizes a slice as uint8(value)+1: 255 would wrap to 0
+				r.SetError(fmt.Errorf("invalid cpb_cnt_minus1: %d", cpbCntMinus1))
+				return hp
+			}
+			hp.SubLayerHrd[i].CpbCntMinus1 = uint8(cpbCntMinus1)
 		}
 		if hp.NalHrdParametersPresentFlag {
 			hp.SubLayerHrd[i].NalHrdParameters = parseSubLayerHrdParameters(r,
@@ -698,6 +707,7 @@ func parseShortTermRPS(r *bits.EBSPReader, idx, numSTRefPicSets byte, sps *SPS) 
 		}
 		if deltaIdx > idx {
 			r.SetError(fmt.Errorf("deltaIdx > idx in parseShortTermRPS"))
+			return stps // idx - deltaIdx would index outside the reference picture sets
 		}
 		/* deltaRpsSign */ _ = r.Read(1)
 		/* absDeltaRpsMinus1*/ _ = r.ReadExpGolomb()
@@ -810,15 +820,23 @@ func parseSPSSccExtension(r *bits.EBSPReader, ChromaFormatIDC,
 			}
 			ext.PalettePredictorInitializer = make([][]uint, numComps)
 			// Fill luma
+			// The count is untrusted: stop at the end of the data. The widths are computed in int so
+			// that a bit depth above 247 cannot wrap to a width of 0 bits (which never reaches EOF).
 			for i := uint(0); i <= ext.NumPalettePredictorInitializersMinus1; i++ {
 				ext.PalettePredictorInitializer[0] =
-					append(ext.PalettePredictorInitializer[0], r.Read(int(BitDepthLumaMinus8+8)))
+					append(ext.PalettePredictorInitializer[0], r.Read(int(BitDepthLumaMinus8)+8))
+				if r.AccError() != nil {
+					break
+				}
 			}
 			// Fill chroma if any
 			for comp := 1; comp < numComps; comp++ {
 				for i := uint(0); i <= ext.NumPalettePredictorInitializersMinus1; i++ {
 					ext.PalettePredictorInitializer[comp] =
-						append(ext.PalettePredictorInitializer[comp], r.Read(int(BitDepthChromaMinus8+8)))
+						append(ext.PalettePredictorInitializer[comp], r.Read(int(BitDepthChromaMinus8)+8))
+					if r.AccError() != nil {
+						break
+					}
 				}
 			}
 		}
